@@ -378,43 +378,62 @@ func c08Units(tier string) []hx.Unit {
 		maxN := 3
 		for n := 1; n <= maxN; n++ {
 			for b0 := range k.behs {
-				n, b0 := n, b0
-				st := &c08State{}
-				u := hx.Unit{Name: fmt.Sprintf("C08/multinode/%s/n%d/%s", k.name, n, k.behs[b0].name), Cfg: mc.Config{Deviation: true, Horizon: int64(30 * time.Second)}}
-				switch {
-				case tier == "thorough" && n <= 2:
-					u.Bound = 2
-				case tier == "thorough" || n <= 2:
-					u.Bound = 1
-				default:
-					u.Bound = 0
+				// thorough, two nodes: one unit per pair of behaviours (the schedule bound of 2 makes a unit that
+				// ranges over the second node's behaviour a quarter of an hour's work for one worker)
+				b1s := []int{-1}
+				if tier == "thorough" && n == 2 {
+					b1s = b1s[:0]
+					for b1 := range k.behs {
+						b1s = append(b1s, b1)
+					}
 				}
-				u.Body = func() {
-					*st = c08State{}
-					lats := len(c08Lats)
-					st.nodes = append(st.nodes, &c08Node{beh: k.behs[b0], lat: mc.Choose(lats)})
-					for i := 1; i < n; i++ {
-						st.nodes = append(st.nodes, &c08Node{beh: k.behs[mc.Choose(len(k.behs))], lat: mc.Choose(lats)})
+				for _, b1 := range b1s {
+					n, b0, b1 := n, b0, b1
+					st := &c08State{}
+					name := fmt.Sprintf("C08/multinode/%s/n%d/%s", k.name, n, k.behs[b0].name)
+					if b1 >= 0 {
+						name += "+" + k.behs[b1].name
 					}
-					st.size = []int{1, 3}[mc.Choose(2)]
-					if k.name == "proposal" {
-						st.size = 1
+					u := hx.Unit{Name: name, Cfg: mc.Config{Deviation: true, Horizon: int64(30 * time.Second)}}
+					switch {
+					case tier == "thorough" && n <= 2:
+						u.Bound = 2
+					case tier == "thorough" || n <= 2:
+						u.Bound = 1
+					default:
+						u.Bound = 0
 					}
-					st.conc = []int{1, 2, 4}[mc.Choose(3)]
-					// the later nodes are configured for every kind, or for this kind only
-					only := ""
-					if n == 2 && mc.Choose(2) == 1 {
-						only = k.name
+					u.Body = func() {
+						*st = c08State{}
+						lats := len(c08Lats)
+						st.nodes = append(st.nodes, &c08Node{beh: k.behs[b0], lat: mc.Choose(lats)})
+						for i := 1; i < n; i++ {
+							beh := b1
+							if beh < 0 {
+								beh = mc.Choose(len(k.behs))
+							}
+							st.nodes = append(st.nodes, &c08Node{beh: k.behs[beh], lat: mc.Choose(lats)})
+						}
+						st.size = []int{1, 3}[mc.Choose(2)]
+						if k.name == "proposal" {
+							st.size = 1
+						}
+						st.conc = []int{1, 2, 4}[mc.Choose(3)]
+						// the later nodes are configured for every kind, or for this kind only
+						only := ""
+						if n == 2 && mc.Choose(2) == 1 {
+							only = k.name
+						}
+						st.only = only != ""
+						svc := multiSvcFor(st.nodes, st.conc, only)
+						t0 := mc.Now()
+						st.payload, st.err = k.multi(svc, context.Background(), st.size)
+						st.t1 = mc.Now() - t0
+						st.done = true
 					}
-					st.only = only != ""
-					svc := multiSvcFor(st.nodes, st.conc, only)
-					t0 := mc.Now()
-					st.payload, st.err = k.multi(svc, context.Background(), st.size)
-					st.t1 = mc.Now() - t0
-					st.done = true
+					u.Check = func(r *mc.Result) mc.Verdict { return c08Check(&k, st, r) }
+					units = append(units, u)
 				}
-				u.Check = func(r *mc.Result) mc.Verdict { return c08Check(&k, st, r) }
-				units = append(units, u)
 			}
 		}
 		// immediate submitter: one node, the result is the node's
